@@ -85,11 +85,22 @@ package ons
 //@   modifies nothing
 //@   ensures domHas(ds)[name] ==> result
 
-//@ assume func (*DomainStore).Set
+// Set is VERIFIED against the State (`claims`): the record of name n lives under ds.prefix ++ rev(n) (the reversed name:
+// sub-names sort behind their parent); a successful Set leaves exactly the serialised domain there and writes nothing else,
+// a failed one writes nothing. TRUSTED per clause: the typed ledger dom / domHas / domPrice. (Get and Exists go through
+// State.Exists, whose contract is one-directional because of D-09a: they stay assumed; so does reverse, a rune loop.)
+//@ ghost func domRawKey(ds *DomainStore, n string) string = str(ds.prefix) + rev(n)
+//@ func (*DomainStore).Set
 //@   requires ds != nil && d != nil
+//@   assumes ds.State != nil && wfState(ds.State)
 //@   modifies domHas(ds)[d.Name], dom(ds)[d.Name], domPrice(ds)[d.Name], vHas(ds.State), vVal(ds.State)
-//@   ensures err == nil ==> domHas(ds)[d.Name] && dom(ds)[d.Name] == *d && (d.SalePrice != nil ==> domPrice(ds)[d.Name] == big(d.SalePrice))
-//@   ensures err != nil ==> domHas(ds)[d.Name] == old(domHas(ds))[d.Name] && dom(ds)[d.Name] == old(dom(ds))[d.Name] && domPrice(ds)[d.Name] == old(domPrice(ds))[d.Name]
+//@   trustframe
+//@   trusts err == nil ==> domHas(ds)[d.Name] && dom(ds)[d.Name] == *d && (d.SalePrice != nil ==> domPrice(ds)[d.Name] == big(d.SalePrice))
+//@   trusts err != nil ==> domHas(ds)[d.Name] == old(domHas(ds))[d.Name] && dom(ds)[d.Name] == old(dom(ds))[d.Name] && domPrice(ds)[d.Name] == old(domPrice(ds))[d.Name]
+//@   assumes !tomb(ser(*d, "Domain"))                                       // A-NOTOMB a serialised record is never the deletion marker
+//@   claims err == nil ==> vHas(ds.State)[domRawKey(ds, d.Name)] && vVal(ds.State)[domRawKey(ds, d.Name)] == ser(old(*d), "Domain")   // C20.raw-record
+//@   claims err == nil ==> forall k string :: k != domRawKey(ds, d.Name) ==> vHas(ds.State)[k] == old(vHas(ds.State))[k] && vVal(ds.State)[k] == old(vVal(ds.State))[k]   // C20.raw-record
+//@   claims err != nil ==> vHas(ds.State) == old(vHas(ds.State)) && vVal(ds.State) == old(vVal(ds.State))   // C20.raw-record
 
 // presence of a record is presence of its key in the State view (used only by the two functions that delete keys directly)
 //@ repr domHas(self *DomainStore)[n string] = vHas(self.State)[str(self.prefix) + rev(n)]
